@@ -89,6 +89,10 @@ def check(ctx):
     n = core.adopt(ctx, c08, lambda o: o["rule"] == "C08.e" and ("runner:" in o["key"] or "poll:" in o["key"]), "C09.c")
     n += core.adopt(ctx, c01, lambda o: o["rule"] == "C01.b" and ("schedule_removal_reactions" in o["key"] or "schedule_despawn_reactions" in o["key"]), "C09.c")
     ctx.floor("C09.c", n, 10, "shared poll obligations (C08.e, C01.b): everything detected at a boundary is dispatched at that boundary")
+    # ... which needs every removal checker to be polled at every boundary (a poll that stops at the first idle checker leaves
+    # the later ones' removals for some later tree; shared with C08.d)
+    n = core.adopt(ctx, c08, lambda o: o["rule"] == "C08.d" and ("every-checker-is-polled" in o["key"] or "dispatches-what-the-checker-returned" in o["key"]), "C09.f")
+    ctx.floor("C09.f", n, 2, "shared removal-checker poll obligations (C08.d)")
     # ---- C09.d FIFO buffer ----
     n = core.adopt(ctx, c12, lambda o: o["rule"] in ("C12.a", "C12.b", "C12.c"), "C09.d")
     ctx.floor("C09.d", n, 8, "shared C12.b/c obligations")
